@@ -90,7 +90,7 @@ func TestPropDistLease(t *testing.T) {
 		cidr := pools.GenEpochNet(false).Draw(rt, "net")
 		grace := rapid.SampledFrom([]int{0, 1, 1}).Draw(rt, "grace")
 		echo := rapid.Bool().Draw(rt, "echo")
-		ops := pools.GenOps(kinds, []int{4, 2, 5, 5, 3, 2, 1}, len(subs), 1, 40).Draw(rt, "ops")
+		ops := pools.GenOps(kinds, []int{4, 2, 5, 5, 3, 4, 1}, len(subs), 1, 40).Draw(rt, "ops")
 		cs := true
 		var res result
 		var f pools.Factory
